@@ -91,6 +91,7 @@ type KnownFinding struct {
 	What     string   `json:"what"`
 	Commit   string   `json:"commit,omitempty"`
 	Witness  string   `json:"witness,omitempty"`
+	Region   string   `json:"region,omitempty"` // harness-declared region the failing input must lie in
 }
 
 func loadKnown() []KnownFinding {
@@ -107,8 +108,11 @@ func loadKnown() []KnownFinding {
 	return out.Findings
 }
 
-func (k KnownFinding) matches(prop, harness, caseID, assertID string) bool {
+func (k KnownFinding) matches(prop, harness, caseID, assertID string, regions map[string]bool) bool {
 	if k.Status != "known" || k.Property != prop {
+		return false
+	}
+	if k.Region != "" && !regions[k.Region] {
 		return false
 	}
 	if k.Harness != "" && k.Harness != harness {
@@ -412,11 +416,12 @@ func Run(id, tier string, seed int, workers int) int {
 		go func() {
 			defer wg.Done()
 			m := vm.New(ld.Prog, ld.Pkgs, vm.RepoModule)
-			s, err := smt.NewSolver("z3", 20000)
+			s, err := smt.NewSolver("z3", 8000)
 			if err != nil {
 				panic(err)
 			}
 			defer s.Close()
+			s.Fallback = "cvc5"
 			m.Solver = s
 			if err := m.InitRepo(initPkgs); err != nil {
 				statsMu.Lock()
@@ -576,7 +581,7 @@ func Run(id, tier string, seed int, workers int) int {
 		}
 		matched := false
 		for _, k := range known {
-			if k.matches(id, p.c.Fn, p.c.ID, p.f.ID) {
+			if k.matches(id, p.c.Fn, p.c.ID, p.f.ID, p.f.Regions) {
 				matched = true
 				key := k.What
 				if !knownHit[key] {
@@ -800,7 +805,8 @@ func writeEvidence(chk *Check, tier string, seed int, t0 time.Time, results []ca
 		cov["solver_errors"] = st.Errors
 		cov["solver_time_s"] = st.Time.Seconds()
 		cov["solver_max_query_s"] = st.MaxQuery.Seconds()
-		cov["solvers"] = []string{"z3 4.8.12 (z3 -in, incremental push/pop, 20 s per-query limit)"}
+		cov["solvers"] = []string{"z3 4.8.12 (z3 -in, incremental push/pop, 8 s per-query limit)", "cvc5 1.0.3 (one-shot fallback when z3 answers unknown, 30 s limit)"}
+		cov["fallback_solver_queries"] = st.Fallbacks
 	}
 	ev := Evidence{PropertyID: chk.ID, Tier: tier, Seed: seed, Level: "model_checking", Coverage: cov,
 		Assumptions: chk.Assumptions, WallS: time.Since(t0).Seconds(), Violations: violations}
